@@ -34,6 +34,9 @@ type Case struct {
 	IJ      map[string]core.V `json:"ij,omitempty"`
 	NoIJ    bool              `json:"noij,omitempty"`
 	Expr    string            `json:"expr,omitempty"`
+	// Msgs, when set, renders with a crafted (possibly inconsistent) message
+	// bundle: "<mode>/<pluralIndex>"
+	Msgs string `json:"msgs,omitempty"`
 	Text    string            `json:"text,omitempty"`
 }
 
@@ -78,6 +81,9 @@ func runCase(c *Case) (o Outcome) {
 		r := comp.Tofu.NewRenderer(c.Entry)
 		if ij != nil {
 			r.Inject(ij)
+		}
+		if c.Msgs != "" {
+			r.WithMessages(craftedBundle(comp, c.Msgs))
 		}
 		err = r.Execute(&buf, core.ToDataMap(c.Data))
 		o.Returned, o.Err, o.Out = true, err != nil, buf.String()
